@@ -50,6 +50,7 @@ var phaseBudgets = map[string][2]time.Duration{
 	"panic-safety":     {30 * time.Second, 45 * time.Second},
 	"callbacks":        {25 * time.Second, 40 * time.Second},
 	"result-aliasing":  {15 * time.Second, 20 * time.Second},
+	"reentry-samekey":  {40 * time.Second, 80 * time.Second},
 	"traversal-hooks":  {40 * time.Second, 70 * time.Second},
 	"sequential":       {40 * time.Second, 70 * time.Second},
 	"lock-step":        {30 * time.Second, 60 * time.Second},
